@@ -90,6 +90,58 @@ class Gen:
             out.append(self.stmt(depth, ctx))
         return out
 
+    def cancel(self, ctx):
+        """An abrupt exit (return with or without a value, throw, break, continue) taken from inside
+        an inner for-in / for-of / switch / plain block that sits in the try or catch block of a
+        try statement whose finally block cancels it with break or continue of the enclosing loop:
+        the enclosing loop must go on exactly as if the exit had never been attempted."""
+        rng = self.rng
+        oid = self.nid()
+        okind = rng.choice(("forin", "forof", "forof", "for", "while"))
+        octx = dict(ctx, loops=ctx["loops"] + [(oid, None, False)])
+        exit_kind = rng.choice(("ret", "ret", "retv", "throw", "break", "continue"))
+
+        def mk_exit(inner_loops):
+            if exit_kind == "ret":
+                return {"t": "ret", "v": None}
+            if exit_kind == "retv":
+                return {"t": "ret", "v": 10 + self.nk()}
+            if exit_kind == "throw":
+                return {"t": "d", "k": self.nk(), "form": rng.choice(("throw_str", "throw_err", "null_prop_mid"))}
+            return {"t": exit_kind, "loop": oid, "label": None, "cond": None} if not inner_loops else \
+                   {"t": exit_kind, "loop": inner_loops[-1], "label": None, "cond": None}
+        inner_kind = rng.choice(("forin", "forof", "switch", "none", "forof_switch"))
+        body = [{"t": "p", "k": self.nk()}]
+        if inner_kind in ("forin", "forof"):
+            iid = self.nid()
+            body.append({"t": "loop", "id": iid, "kind": inner_kind, "n": rng.randrange(1, 3), "label": None,
+                         "b": [{"t": "p", "k": self.nk()}, mk_exit([iid])]})
+        elif inner_kind == "switch":
+            ex = mk_exit([]) if exit_kind != "break" else {"t": "ret", "v": None}
+            body.append({"t": "switch", "id": self.nid(), "v": 1,
+                         "cases": [{"test": 1, "b": [{"t": "p", "k": self.nk()}, ex], "brk": False}]})
+        elif inner_kind == "forof_switch":
+            iid = self.nid()
+            ex = mk_exit([iid]) if exit_kind != "break" else {"t": "ret", "v": None}
+            body.append({"t": "loop", "id": iid, "kind": "forof", "n": 2, "label": None,
+                         "b": [{"t": "switch", "id": self.nid(), "v": 0,
+                                "cases": [{"test": None, "b": [{"t": "p", "k": self.nk()}, ex], "brk": False}]}]})
+        else:
+            body.append(mk_exit([]))
+        fin = [{"t": "p", "k": self.nk()},
+               {"t": rng.choice(("continue", "continue", "break")), "loop": oid, "label": None, "cond": None}]
+        node = {"t": "try", "id": self.nid(), "b": None, "c": None, "f": fin}
+        if rng.random() < 0.35:
+            # the exit is taken from the catch block instead
+            node["b"] = [{"t": "d", "k": self.nk(), "form": "throw_str"}]
+            node["c"] = body
+        else:
+            node["b"] = body
+            if rng.random() < 0.3:
+                node["c"] = [{"t": "p", "k": self.nk()}]
+        return {"t": "loop", "id": oid, "kind": okind, "n": rng.randrange(2, 4), "label": None,
+                "b": [{"t": "p", "k": self.nk()}, node, {"t": "p", "k": self.nk()}]}
+
     def stmt(self, depth, ctx):
         """ctx: dict(fn=index, nfn=count, loops=[(id,label)], in_cb=bool)"""
         rng, pf = self.rng, self.pf
@@ -214,7 +266,8 @@ PROFILES = {
     "core_native": {"max_depth": 3, "forms": FORMS, "try_shapes": ("c", "f", "cf", "c", "cf"), "loops": LOOPS, "natives": NATIVES,
                     "ctxs": CTXS, "abrupt_in_try": False, "ret_in_finally": False, "throw_in_catch_with_finally": True, "labels": False},
 }
-PROFILE_WEIGHTS = (("full", 3), ("nonative", 2), ("core", 3), ("core_native", 2))
+PROFILES["cancel"] = dict(PROFILES["full"])      # f0 starts with an exit cancelled by a finally block (Gen.cancel)
+PROFILE_WEIGHTS = (("full", 3), ("nonative", 2), ("core", 3), ("core_native", 2), ("cancel", 1))
 
 
 def gen_program(rng, profile_name, outer_loop=False):
@@ -227,6 +280,8 @@ def gen_program(rng, profile_name, outer_loop=False):
     for i in range(nfn):
         ctx = {"fn": i, "nfn": nfn, "loops": [(0, None, False)] if (outer_loop and i == 0) else [], "lblocks": []}
         body = g.block(0, ctx, rng.randrange(2, 5))
+        if profile_name == "cancel" and i == 0:
+            body = [g.cancel(ctx)] + body[:2]
         funcs.append({"id": i, "b": body})
     prog = {"funcs": funcs, "profile": profile_name}
     if outer_loop:
